@@ -1,9 +1,42 @@
 (** Executable comparison used by the correspondence check of C07: what the
-    implementation reported (real txauthor/txsizes/txrules, real signatures,
-    mempool.GetTxVirtualSize) against the model of Fee.v evaluated with the
-    regenerated configuration [generated_cfg]. *)
+    implementation reported (real txauthor/txsizes/txrules, the wallet's real
+    input sources and change source, a real wallet's CreateSimpleTx /
+    SendOutputs / FundPsbt, real signatures, mempool.GetTxVirtualSize) against
+    the model of Fee.v evaluated with the regenerated configuration
+    [generated_cfg].
+
+    Only observables the theorems of Properties/C07.v speak about are compared:
+    the rounds only through their bound, the outputs of a txauthor-level run as
+    a count (the harness oracle compares them as a multiset), the outputs of a
+    wallet-level run in order only where the model computes the order
+    (RandomizeChangePosition for the observed draw) and as a multiset
+    otherwise, the inputs as a multiset. *)
+From Coq Require Import Sorting.Mergesort Orders.
 From Verif Require Import Base.Prelude Generated.TxsizesConsts Fee.Fee.
 Local Open Scope Z_scope.
+
+(** ** multisets of pairs of integers, compared through sorting *)
+Module PairOrder <: TotalLeBool.
+  Definition t := (Z * Z)%type.
+  Definition leb (a b : t) : bool := (fst a <? fst b) || ((fst a =? fst b) && (snd a <=? snd b)).
+  Theorem leb_total : forall a b, leb a b = true \/ leb b a = true.
+  Proof. intros [a1 a2] [b1 b2]. unfold leb. cbn [fst snd]. lia. Qed.
+End PairOrder.
+Module PairSort := Sort PairOrder.
+
+Fixpoint pairs_eqb (a b : list (Z * Z)) : bool :=
+  match a, b with
+  | [], [] => true
+  | x :: a', y :: b' => (fst x =? fst y) && (snd x =? snd y) && pairs_eqb a' b'
+  | _, _ => false
+  end.
+
+Definition multiset_eqb (a b : list (Z * Z)) : bool :=
+  (Z.of_nat (length a) =? Z.of_nat (length b)) && pairs_eqb (PairSort.sort a) (PairSort.sort b).
+
+Definition kind_code (k : kind) : Z := match k with P2PKH => 0 | P2TR => 1 | P2WPKH => 2 | NP2WPKH => 3 end.
+Definition coin_pair (c : coin) : Z * Z := (kind_code (fst c), snd c).
+Definition out_pair (o : txout) : Z * Z := (out_value o, out_size o).
 
 (** Observation of one NewUnsignedTransaction + AddAllInputScripts run. *)
 Record obs_author := mkObs {
@@ -12,19 +45,35 @@ Record obs_author := mkObs {
   o_in_kinds : list kind;    (* kinds of the inputs of the authored transaction, in order *)
   o_est : Z;                 (* txsizes.EstimateVirtualSize for those inputs *)
   o_total_in : Z;            (* AuthoredTx.TotalInput *)
-  o_fee : Z;                 (* sum of input values - sum of output values *)
-  o_change_idx : Z;          (* AuthoredTx.ChangeIndex *)
-  o_change_amt : Z;          (* value of the change output (0 if none) *)
+  o_fee : Z;                 (* sum of the coins' values - sum of output values *)
+  o_has_change : bool;       (* AuthoredTx.ChangeIndex >= 0 *)
+  o_change_amt : Z;          (* value of the output at ChangeIndex (0 if none) *)
   o_nout : Z;                (* number of outputs of the transaction *)
-  o_sigs : list Z;           (* signature lengths of the signed inputs *)
+  o_sigs : list (Z * Z);     (* signature and public-key length of each signed input *)
   o_real_vsize : Z           (* mempool.GetTxVirtualSize of the signed transaction *)
 }.
 
+(** Observation of one wallet-level run. *)
+Record obs_wallet := mkWObs {
+  w_err : Z;                 (* 0 = success, 1 = insufficient funds, 11/12/13 = refused: negative / exceeds max / dust *)
+  w_inputs : list coin;      (* inputs of the transaction (kind, value on the harness ledger), in order *)
+  w_outs : list txout;       (* outputs of the transaction, in order *)
+  w_change_idx : Z;          (* index of the change output, -1 if none *)
+  w_ordered : bool;          (* the output ORDER is the model's for the draw r = w_change_idx *)
+  w_total_in : Z;            (* AuthoredTx.TotalInput, -1 where the API does not report it *)
+  w_fee : Z;                 (* ledger values of the inputs - output values *)
+  w_sigs : list (Z * Z);
+  w_real_vsize : Z
+}.
+
 Inductive case :=
-| CAuthor (outs : list txout) (rate : Z) (coins : list coin) (chg : Z) (chgwit : bool) (o : obs_author)
+| CAuthor (fixed : bool) (outs : list txout) (rate : Z) (coins : list coin) (chg : Z) (chgwit : bool) (o : obs_author)
+| CWallet (checks fixed randomizes : bool) (outs : list txout) (rate : Z) (k : chkind) (coins : list coin) (o : obs_wallet)
+| CChangeSrc (k : chkind) (declared script_len : Z)
 | CFee (rate size : Z) (o : Z)
 | CEst (c : counts) (outs : list txout) (chg : Z) (o : Z)
-| CDust (v sz : Z) (wit : bool) (o : bool).
+| CDust (v sz : Z) (wit : bool) (o : bool)
+| CCheckOut (v sz : Z) (wit : bool) (o : Z).
 
 Fixpoint kinds_eqb (a b : list kind) : bool :=
   match a, b with
@@ -33,30 +82,73 @@ Fixpoint kinds_eqb (a b : list kind) : bool :=
   | _, _ => false
   end.
 
-Definition author_ok outs rate coins chg chgwit (o : obs_author) : bool :=
-  match author generated_cfg outs rate chg chgwit coins with
+Definition author_ok fixed outs rate coins chg chgwit (o : obs_author) : bool :=
+  match author generated_cfg fixed outs rate chg chg chgwit coins with
   | Success a =>
       (o_err o =? 0)
-      && (o_rounds o =? Z.of_nat (a_rounds a))
+      && (o_rounds o <=? Z.of_nat (length coins) + 1)
       && kinds_eqb (o_in_kinds o) (map fst (a_inputs a))
       && (o_est o =? a_est a)
       && (o_total_in o =? a_total_in a)
-      && (o_fee o =? paid_fee a)
-      && (o_change_idx o =? match a_change_index a with Some i => Z.of_nat i | None => -1 end)
+      && (o_fee o =? tx_fee a)
+      && Bool.eqb (o_has_change o) (match a_change a with Some _ => true | None => false end)
       && (o_change_amt o =? match a_change a with Some v => v | None => 0 end)
       && (o_nout o =? Z.of_nat (length (a_outs a)))
       && (Z.of_nat (length (o_sigs o)) =? Z.of_nat (length (a_inputs a)))
-      && (o_real_vsize o =? real_vsize (combine (map fst (a_inputs a)) (o_sigs o)) (a_outs a))
-  | InsufficientFunds r => (o_err o =? 1) && (o_rounds o =? Z.of_nat r)
+      && (o_real_vsize o =? real_vsize (mk_sinputs (map fst (a_inputs a)) (o_sigs o)) (a_outs a))
+  | InsufficientFunds r => (o_err o =? 1) && (o_rounds o <=? Z.of_nat (length coins) + 1)
+  | OutOfFuel => false
+  end.
+
+(** The harness requests standard scripts only: 25 P2PKH, 23 P2SH, 22 P2WPKH,
+    34 P2WSH / P2TR; the last three lengths are witness programs. *)
+Definition std_wit (sz : Z) : bool := (sz =? 22) || (sz =? 34).
+
+(** SendOutputs and FundPsbt run txrules.CheckOutput over the requested
+    outputs first and refuse with the first complaint. *)
+Fixpoint first_refusal (outs : list txout) : Z :=
+  match outs with
+  | [] => 0
+  | o :: r =>
+      let c := check_output (out_value o) (out_size o) (std_wit (out_size o)) default_relay_fee_per_kb in
+      if c =? 0 then first_refusal r else c
+  end.
+
+Definition wallet_ok (checks fixed randomizes : bool) outs rate k coins (o : obs_wallet) : bool :=
+  (* which complaint comes first is not part of the property: refused or not *)
+  if checks && negb (first_refusal outs =? 0) then 10 <=? w_err o else
+  match wallet_author fixed randomizes outs rate k coins (Z.to_nat (w_change_idx o)) with
+  | Success a =>
+      (w_err o =? 0)
+      && multiset_eqb (map coin_pair (w_inputs o)) (map coin_pair (a_inputs a))
+      && ((w_total_in o <? 0) || (w_total_in o =? a_total_in a))
+      && (w_fee o =? tx_fee a)
+      && (if w_ordered o then pairs_eqb (map out_pair (w_outs o)) (map out_pair (a_outs a))
+          else multiset_eqb (map out_pair (w_outs o)) (map out_pair (a_outs a)))
+      && match a_change a with
+         | Some c =>
+             (0 <=? w_change_idx o)
+             && match nth_error (w_outs o) (Z.to_nat (w_change_idx o)) with
+                | Some x => (out_value x =? c) && (out_size x =? change_real k)
+                | None => false
+                end
+         | None => w_change_idx o <? 0
+         end
+      && (Z.of_nat (length (w_sigs o)) =? Z.of_nat (length (w_inputs o)))
+      && (w_real_vsize o =? real_vsize (mk_sinputs (map fst (w_inputs o)) (w_sigs o)) (a_outs a))
+  | InsufficientFunds _ => w_err o =? 1
   | OutOfFuel => false
   end.
 
 Definition case_ok (c : case) : bool :=
   match c with
-  | CAuthor outs rate coins chg chgwit o => author_ok outs rate coins chg chgwit o
+  | CAuthor fixed outs rate coins chg chgwit o => author_ok fixed outs rate coins chg chgwit o
+  | CWallet checks fixed randomizes outs rate k coins o => wallet_ok checks fixed randomizes outs rate k coins o
+  | CChangeSrc k declared script_len => (change_decl k =? declared) && (change_real k =? script_len)
   | CFee rate size o => fee_for rate size =? o
   | CEst c outs chg o => est_vsize_gen (cfg_vcc generated_cfg) c outs chg =? o
   | CDust v sz wit o => Bool.eqb (is_dust v sz wit default_relay_fee_per_kb) o
+  | CCheckOut v sz wit o => Bool.eqb (check_output v sz wit default_relay_fee_per_kb =? 0) (o =? 0)
   end.
 
 Fixpoint mismatches_from {A} (f : A -> bool) (i : nat) (l : list A) : list nat :=
